@@ -18,6 +18,7 @@ from .model import AnalysisError, Program
 from .report import RuleContext, finish
 
 DEFAULT_ROOT = os.environ.get("SA_ROOT", "/repo")
+LAST_CTX = None
 
 
 def run_property(prop: str, tier: str, root: str, seed: int, evidence_dir=None, write=True) -> int:
@@ -41,6 +42,8 @@ def run_property(prop: str, tier: str, root: str, seed: int, evidence_dir=None, 
             digest = ""
             root = root
         ctx.prog = _P()
+    global LAST_CTX
+    LAST_CTX = ctx
     return finish(ctx, t0, err, evidence_dir=evidence_dir, write=write)
 
 
@@ -59,9 +62,19 @@ def main(argv=None):
     if a.replay:
         with open(a.replay) as f:
             rp = json.load(f)
-        print("replaying obligation:", json.dumps(rp["obligation"], indent=1))
-        code = run_property(rp["property"], rp.get("tier", "quick"), a.root, seed, write=False)
-        return code
+        ob = rp["obligation"]
+        print("replaying obligation:", json.dumps(ob, indent=1))
+        run_property(rp["property"], rp.get("tier", "quick"), a.root, seed, write=False)
+        same = [o for o in (LAST_CTX.obligations if LAST_CTX else []) if o.rule == ob.get("rule") and o.construct == ob.get("construct")
+                and o.qualname == ob.get("qualname")]
+        for o in same:
+            print(f"REPLAY {o.status}: {o.file}:{o.line} {o.qualname} [{o.rule}] {o.explanation}")
+        if not same:
+            print("REPLAY: the construct of this obligation is no longer present in the tree under analysis")
+        if any(o.status == "violated" for o in same):
+            print(f"VIOLATION property={rp['property']} replay={a.replay}")
+            return 1
+        return 0
     code = run_property(a.prop.upper(), a.tier, a.root, seed, a.evidence_dir, write=not a.no_write)
     if a.tier == "thorough" and code != 2:
         try:
